@@ -1,6 +1,4 @@
-SPECIFICATION TSpec
-CONSTANTS
-  Dev = {}
+SPECIFICATION Spec
 CONSTRAINT Record
 POSTCONDITION Post
 CHECK_DEADLOCK FALSE
